@@ -1644,8 +1644,12 @@ def _imports_of(tree, rel):
     return out
 
 
-def process_state(repo, rule_names=(), memos=()):
+def process_state(repo, rule_names=(), memos=(), files=None, strict=None):
+    """files: the modules to scan (default STATE_FILES); strict: those among them where an unknown shape is a translator problem
+    (default: all) -- elsewhere an unknown shape only yields an Uncontrolled site."""
     sites, problems = [], []
+    files = list(files) if files is not None else list(STATE_FILES)
+    strict = set(files) if strict is None else set(strict)
     rule_by_class = {}
     for r in rule_names:          # "rules/common/_basic_rules:ReshapeReshape"
         mod, cls = r["name"].split(":") if isinstance(r, dict) else r.split(":")
@@ -1654,7 +1658,7 @@ def process_state(repo, rule_names=(), memos=()):
     def add(rel, name, disc, why):
         sites.append({"module": rel[len("onnxscript/"):-3], "name": name, "disc": disc, "why": why})
 
-    for rel in STATE_FILES:
+    for rel in files:
         path = os.path.join(repo, rel)
         if not os.path.exists(path):
             problems.append(f"{rel}: file not found")
@@ -1662,6 +1666,11 @@ def process_state(repo, rule_names=(), memos=()):
         tree = ast.parse(open(path).read())
         classes = {n.name: n for n in tree.body if isinstance(n, ast.ClassDef)}
         imports = _imports_of(tree, rel)
+        local_fns = {n.name: n for n in tree.body if isinstance(n, (ast.FunctionDef, ast.AsyncFunctionDef))}
+
+        def unknown(msg):
+            if rel in strict:
+                problems.append(msg)
 
         def find_class(func):
             """class node constructed by the call expression `func(...)`, or None"""
@@ -1686,7 +1695,9 @@ def process_state(repo, rule_names=(), memos=()):
                 return None
             if isinstance(v, (ast.Name, ast.Attribute)):
                 return None                                   # alias of an object classified where it is created
-            if isinstance(v, ast.Call) and txt in IMMUTABLE_CALLS:
+            if isinstance(v, ast.Call) and (txt in IMMUTABLE_CALLS or txt.startswith("math.") or txt in ("float", "int", "str", "bool", "os.getenv")):
+                return None
+            if isinstance(v, (ast.Compare, ast.BoolOp, ast.IfExp)) and not any(isinstance(x, (ast.List, ast.Dict, ast.Set)) for x in ast.walk(v)):
                 return None
             if isinstance(v, (ast.List, ast.Dict, ast.Set, ast.ListComp, ast.DictComp, ast.SetComp)) or txt in CONTAINER_CALLS:
                 muts = [m for m in _name_mutations(tree, name)]
@@ -1697,12 +1708,36 @@ def process_state(repo, rule_names=(), memos=()):
                 return ("Uncontrolled", "process-wide counter")
             if isinstance(v, ast.Call):
                 last = txt.split(".")[-1]
-                if last == "rule" and isinstance(v.func, ast.Attribute) and isinstance(v.func.value, ast.Name) and v.func.value.id in classes:
-                    ident = rule_by_class.get((rel, v.func.value.id))
+                rcls = None
+                if last == "rule" and isinstance(v.func, ast.Attribute):
+                    if isinstance(v.func.value, ast.Name) and v.func.value.id in classes:
+                        rcls = v.func.value.id                              # Cls.rule(...)
+                    elif isinstance(v.func.value, ast.Call) and isinstance(v.func.value.func, ast.Name) and v.func.value.func.id in classes:
+                        rcls = v.func.value.func.id                         # Cls(...).rule(...)
+                if rcls is not None:
+                    ident = rule_by_class.get((rel, rcls))
                     if ident is None:
-                        problems.append(f"{rel}:{lineno}: rule object {name} of class {v.func.value.id} which rule_cfgs did not translate")
+                        problems.append(f"{rel}:{lineno}: rule object {name} of class {rcls} which rule_cfgs did not translate")
                         return ("Uncontrolled", "rule class not translated")
                     return ("RuleObject:" + ident, "rule object: per-match fields, must-definition check of its class")
+                if last == "RewriteRule" and txt in ("pattern.RewriteRule", "orp.RewriteRule", "RewriteRule", "_rewrite_rule.RewriteRule"):
+                    rr = os.path.join(repo, BASE_FILES[0])
+                    rrc = [c for c in ast.parse(open(rr).read()).body if isinstance(c, ast.ClassDef) and c.name == "RewriteRule"]
+                    if rrc and not _class_mutators(rrc[0]):
+                        return ("WriteOnceAtImport", "instance of RewriteRule: no method stores into self after construction")
+                if isinstance(v.func, ast.Name) and v.func.id in local_fns:
+                    # a module-level helper: classify what it returns (one level)
+                    rets = [r.value for r in ast.walk(local_fns[v.func.id]) if isinstance(r, ast.Return) and r.value is not None]
+                    inner = {d.name for d in ast.walk(local_fns[v.func.id]) if isinstance(d, (ast.FunctionDef, ast.AsyncFunctionDef))} - {v.func.id}
+                    if rets and all(isinstance(r, (ast.Compare, ast.Constant, ast.Lambda)) or (isinstance(r, ast.Name) and r.id in inner) for r in rets):
+                        return None                                        # a bool / a constant / a closure
+                    fn_assign = {}
+                    for a_ in ast.walk(local_fns[v.func.id]):
+                        if isinstance(a_, ast.Assign) and len(a_.targets) == 1 and isinstance(a_.targets[0], ast.Name):
+                            fn_assign.setdefault(a_.targets[0].id, []).append(a_.value)
+                    rets = [fn_assign[r.id][0] if isinstance(r, ast.Name) and len(fn_assign.get(r.id, [])) == 1 else r for r in rets]
+                    if rets and all(isinstance(r, ast.Call) and ast.unparse(r.func).split(".")[-1] == "RewriteRuleSet" for r in rets):
+                        return ("RuleSet", "rule-set object built by a module-level helper: naming state re-initialised by apply_to_model")
                 if last == "RewriteRuleSet" or last == "apply_fusion_rules":
                     return ("RuleSet", "rule-set object: naming state re-initialised by apply_to_model (must-definition check of RewriteRuleSet.apply_to_model)")
                 cls, crel = find_class(v.func)
@@ -1725,9 +1760,9 @@ def process_state(repo, rule_names=(), memos=()):
                         if ms and all(set(m["fun"]) <= set(m["key"]) for m in ms):
                             return ("KeyedBy:" + ",".join(ms[0]["key"]) + ":" + ",".join(ms[0]["fun"]), "memo tables of " + cls.name)
                     return ("Uncontrolled", f"instance of {cls.name}: methods {sorted(mut)} store into self")
-                problems.append(f"{rel}:{lineno}: module-level object {name} = {txt}(...) of a shape this translator does not know")
-                return ("Uncontrolled", "unknown constructor")
-            problems.append(f"{rel}:{lineno}: module-level assignment {name} = <{type(v).__name__}> of a shape this translator does not know")
+                unknown(f"{rel}:{lineno}: module-level object {name} = {txt}(...) of a shape this translator does not know")
+                return ("Uncontrolled", f"unknown constructor {txt}")
+            unknown(f"{rel}:{lineno}: module-level assignment {name} = <{type(v).__name__}> of a shape this translator does not know")
             return ("Uncontrolled", "unknown shape")
 
         for n in tree.body:
@@ -1819,7 +1854,7 @@ def process_state(repo, rule_names=(), memos=()):
                             add(rel, gname + "@" + n.name, "Uncontrolled", "module global rebound by a function")
     fl = lambda fs: "[" + "; ".join('"' + f + '"' for f in fs if f) + "]"
     out = ["(* generated by harness/c14_translate.py (process_state) from the module-level / class-level assignments, cache decorators and "
-           "`global` statements of " + str(len(STATE_FILES)) + " modules -- do not edit *)",
+           "`global` statements of " + str(len(files)) + " modules -- do not edit *)",
            "From Coq Require Import List String.", "Require Import OV.Determinism.MustDef OV.Determinism.ProcessState OV.Gen.RuleCfgs.",
            "Import ListNotations.", "Local Open Scope string_scope.", "", "Definition state_sites : list state_site := ["]
     rows = []
@@ -1838,3 +1873,423 @@ def process_state(repo, rule_names=(), memos=()):
     out.append(";\n".join(rows))
     out.append("].")
     return "\n".join(out) + "\n", sites, problems
+
+
+# =============================================================================================
+# 5. what the decorator does with an array it evaluates as a script-time constant -> Gen/CapturePolicy.v
+# =============================================================================================
+
+CAPTURE_SITES = [
+    # (file, class or None, function, variable holding the constant, what consumes it)
+    ("onnxscript/_internal/converter.py", "Converter", "_emit_const", "pyvalue", "ir.tensor"),
+    ("onnxscript/_internal/converter.py", "Converter", "_translate_attr", "val", "convert_attribute"),
+    ("onnxscript/_internal/main.py", None, "_freeze_constant", "value", None),
+]
+TENSOR_MAKERS = ("ir.tensor", "ir.Tensor", "ir.convenience.convert_attribute", "convert_attribute", "ir.AttrTensor")
+
+
+def _find_fn(tree, cls, fn):
+    body = tree.body
+    if cls is not None:
+        c = [n for n in body if isinstance(n, ast.ClassDef) and n.name == cls]
+        if not c:
+            return None
+        body = c[0].body
+    f = [n for n in body if isinstance(n, (ast.FunctionDef, ast.AsyncFunctionDef)) and n.name == fn]
+    return f[0] if f else None
+
+
+def _isinstance_ndarray(e, var):
+    """e is `isinstance(var, np.ndarray)` or `isinstance(var, (.., np.ndarray, ..))` -> list of type names, else None"""
+    if not (isinstance(e, ast.Call) and isinstance(e.func, ast.Name) and e.func.id == "isinstance" and len(e.args) == 2):
+        return None
+    if not (isinstance(e.args[0], ast.Name) and e.args[0].id == var):
+        return None
+    t = e.args[1]
+    names = [ast.unparse(x) for x in (t.elts if isinstance(t, ast.Tuple) else [t])]
+    return names if any(n in ("np.ndarray", "numpy.ndarray") for n in names) else None
+
+
+def capture_policy(repo):
+    """For each place where a script-time constant becomes part of the function (tensor constant, attribute value, the
+    namespace of the eager function): is an ndarray copied, and under which condition?  Recognised shapes:
+        if isinstance(X, np.ndarray): X = X.copy()                          -> CopyAlways
+        if isinstance(X, np.ndarray) and X.flags.writeable: X = X.copy()    -> CopyIfWriteable
+        if isinstance(X, (.., np.ndarray)): ... return copy.deepcopy(X)     -> CopyAlways (for the listed types)
+        no isinstance(X, np.ndarray) test at all                            -> NoCopy
+    anything else is reported (fail-closed)."""
+    problems, sites = [], []
+    trees = {}
+    for rel, cls, fn, var, consumer in CAPTURE_SITES:
+        path = os.path.join(repo, rel)
+        if not os.path.exists(path):
+            problems.append(f"{rel}: file not found")
+            continue
+        tree = trees.setdefault(rel, ast.parse(open(path).read()))
+        f = _find_fn(tree, cls, fn)
+        name = f"{os.path.basename(rel)[:-3]}:{fn}"
+        if f is None:
+            problems.append(f"{rel}: function {fn} not found (where are script-time constants captured now?)")
+            continue
+        tests = []
+        for n in ast.walk(f):
+            if isinstance(n, ast.If):
+                conj = n.test.values if isinstance(n.test, ast.BoolOp) and isinstance(n.test.op, ast.And) else [n.test]
+                types = None
+                for c in conj:
+                    t = _isinstance_ndarray(c, var)
+                    if t is not None:
+                        types = t
+                if types is None:
+                    if any("ndarray" in ast.unparse(x) for x in ast.walk(n.test) if isinstance(x, ast.Attribute)):
+                        problems.append(f"{rel}:{n.lineno}: {fn}: a test that mentions ndarray has a shape this translator does not know: {ast.unparse(n.test)[:80]}")
+                    continue
+                others = [c for c in conj if _isinstance_ndarray(c, var) is None]
+                copies = [x for b in n.body for x in ast.walk(b)
+                          if (isinstance(x, ast.Assign) and len(x.targets) == 1 and isinstance(x.targets[0], ast.Name) and x.targets[0].id == var
+                              and ast.unparse(x.value) in (f"{var}.copy()", f"np.array({var}, copy=True)", f"copy.deepcopy({var})"))
+                          or (isinstance(x, ast.Return) and x.value is not None and ast.unparse(x.value) in (f"copy.deepcopy({var})", f"{var}.copy()"))]
+                if not copies:
+                    problems.append(f"{rel}:{n.lineno}: {fn}: `if {ast.unparse(n.test)[:60]}` does not copy {var} in a recognised way")
+                    continue
+                if not others:
+                    pol = "CopyAlways"
+                elif len(others) == 1 and ast.unparse(others[0]) == f"{var}.flags.writeable":
+                    pol = "CopyIfWriteable"
+                else:
+                    problems.append(f"{rel}:{n.lineno}: {fn}: the copy of {var} is guarded by a condition this translator does not know: "
+                                    f"{' and '.join(ast.unparse(o) for o in others)[:100]}")
+                    continue
+                tests.append((n.lineno, pol, types))
+        # the consumer must come after the copy
+        cons = [x.lineno for x in ast.walk(f) if isinstance(x, ast.Call) and consumer and ast.unparse(x.func).endswith(consumer)
+                and any(isinstance(a, ast.Name) and a.id == var for a in x.args)]
+        if consumer and not cons:
+            problems.append(f"{rel}: {fn}: no call {consumer}({var}) found (where does the constant go now?)")
+        if len(tests) > 1:
+            problems.append(f"{rel}: {fn}: several ndarray tests (lines {[t[0] for t in tests]})")
+            continue
+        if not tests:
+            sites.append({"name": name, "policy": "NoCopy", "types": [], "line": f.lineno})
+            continue
+        line, pol, types = tests[0]
+        if cons and min(cons) < line:
+            problems.append(f"{rel}:{min(cons)}: {fn}: {consumer}({var}) is called before the copy at line {line}")
+        sites.append({"name": name, "policy": pol, "types": types, "line": line})
+    # no other place of the converter builds a tensor from a python value
+    for rel in ("onnxscript/_internal/converter.py", "onnxscript/_internal/irbuilder.py"):
+        path = os.path.join(repo, rel)
+        if not os.path.exists(path):
+            continue
+        tree = trees.setdefault(rel, ast.parse(open(path).read()))
+        allowed = {(r, fn) for r, _c, fn, _v, _k in CAPTURE_SITES}
+        for top in ast.walk(tree):
+            if isinstance(top, (ast.FunctionDef, ast.AsyncFunctionDef)):
+                for x in ast.walk(top):
+                    if isinstance(x, ast.Call) and ast.unparse(x.func) in TENSOR_MAKERS and (rel, top.name) not in allowed:
+                        inner = [t for t in ast.walk(top) if isinstance(t, (ast.FunctionDef, ast.AsyncFunctionDef)) and t is not top
+                                 and any(y is x for y in ast.walk(t))]
+                        if not inner:
+                            problems.append(f"{rel}:{x.lineno}: {top.name} builds a tensor/attribute from a python value ({ast.unparse(x.func)}) outside the "
+                                            "functions whose copy policy is translated")
+    out = ["(* generated by harness/c14_translate.py (capture_policy) from converter.py (_emit_const, _translate_attr) and main.py (_freeze_constant) "
+           "-- do not edit *)", "From Coq Require Import List String.", "Require Import OV.Determinism.Alias.", "Import ListNotations.",
+           "Local Open Scope string_scope.", "", "Definition capture_policies : list (string * policy) := ["]
+    out.append(";\n".join(f'  ("{s["name"]}", {s["policy"]})' for s in sites))
+    out.append("].")
+    return "\n".join(out) + "\n", sites, problems
+
+
+# =============================================================================================
+# 6. inventory of EVERY piece of state that outlives one operation -> Gen/StateInventory.v, Gen/ObjectCfgs.v
+# =============================================================================================
+
+INV_EXCLUDE = ("onnx_opset", "function_libs", "tools", "rewriter/models", "testing", "backend", "nn", "_framework_apis")
+# objects a user (or a module) keeps across operations: the property's "same decorator, pass and rule objects"
+LONG_LIVED = {"FoldConstantsPass", "RewritePass", "ConvertVersionPass", "_ConvertVersionPassRequiresInline", "RewriteRuleSet", "RewriteRule",
+              "PatternBase", "RewriteRuleClassBase", "PatternMatcher", "SimplePatternMatcher", "OpsetPatternBuilder", "ValuePattern",
+              "NodePattern", "GraphPattern", "Opset", "Op", "OnnxFunction", "TracedOnnxFunction", "PartialEvaluatorRegistry",
+              "AdapterRegistry", "Registry", "ORTEvaluator", "ORTMixedEvaluator", "ReferenceEvaluator", "BaseEvaluator"}
+# (file, class, entry method, ident): objects whose entry method is reduced to the mini language of MustDef.v like the rule classes
+OBJECT_ENTRIES = [
+    ("onnxscript/rewriter/_matcher.py", "SimplePatternMatcher", "match", "obj_simple_pattern_matcher"),
+    ("onnxscript/version_converter/_version_converter.py", "_VersionConverter", "visit_model", "obj_version_converter"),
+]
+CTOR_NAMES = ("__init__", "__new__", "__post_init__")
+
+
+def inventory_files(repo):
+    out = []
+    root = os.path.join(repo, "onnxscript")
+    for dp, _dn, fn in sorted(os.walk(root)):
+        rel_dir = os.path.relpath(dp, root).replace(os.sep, "/") + "/"
+        if any(("/" + rel_dir).find("/" + x + "/") >= 0 for x in INV_EXCLUDE):
+            continue
+        for f in sorted(fn):
+            if f.endswith(".py") and not f.endswith("_test.py") and not f.endswith("_test_utils.py"):
+                out.append(os.path.relpath(os.path.join(dp, f), repo))
+    return out
+
+
+def _later_written(cls):
+    """attribute -> {method: [how]} for every store into / mutation of self.<attribute> outside the constructors"""
+    later = {}
+    for m in cls.body:
+        if not isinstance(m, (ast.FunctionDef, ast.AsyncFunctionDef)) or m.name in CTOR_NAMES:
+            continue
+        if any(ast.unparse(d).endswith(".setter") for d in m.decorator_list):
+            continue                                   # property setters: explicit configuration by the user, like the constructor
+        for n in ast.walk(m):
+            a = how = None
+            if isinstance(n, ast.Attribute) and _is_self(n.value) and isinstance(n.ctx, (ast.Store, ast.Del)):
+                a, how = n.attr, "store"
+            elif isinstance(n, ast.Subscript) and isinstance(n.ctx, (ast.Store, ast.Del)) and isinstance(n.value, ast.Attribute) and _is_self(n.value.value):
+                a, how = n.value.attr, "item"
+            elif isinstance(n, ast.Call) and isinstance(n.func, ast.Attribute) and n.func.attr in MUTATORS and isinstance(n.func.value, ast.Attribute) \
+                    and _is_self(n.func.value.value):
+                a, how = n.func.value.attr, n.func.attr
+            if a:
+                later.setdefault(a, {}).setdefault(m.name, []).append(how)
+    return later
+
+
+def _lazy_memo(cls, attr):
+    """every store to self.attr outside the constructors is `self.attr = e` directly under `if self.attr is None:` (or `if not self.attr`)"""
+    ok, n_st = True, 0
+    for m in cls.body:
+        if not isinstance(m, (ast.FunctionDef, ast.AsyncFunctionDef)) or m.name in CTOR_NAMES:
+            continue
+        if any(ast.unparse(d).endswith(".setter") for d in m.decorator_list):
+            continue                                   # an explicit configuration call by the user, like the constructor
+        guarded = set()
+        early = None
+        for st in m.body:                              # `if self.x is not None: return self.x` at the top of the method
+            if isinstance(st, ast.If) and ast.unparse(st.test) == f"self.{attr} is not None" and len(st.body) == 1 \
+                    and isinstance(st.body[0], ast.Return) and st.body[0].value is not None and ast.unparse(st.body[0].value) == f"self.{attr}":
+                early = st.lineno
+        if early is not None:
+            for n in ast.walk(m):
+                if getattr(n, "lineno", 0) > early:
+                    guarded.add(id(n))
+        for n in ast.walk(m):
+            if isinstance(n, ast.If):
+                t = ast.unparse(n.test)
+                if t in (f"self.{attr} is None", f"not self.{attr}", f"not hasattr(self, '{attr}')"):
+                    for b in n.body:
+                        for x in ast.walk(b):
+                            guarded.add(id(x))
+        for n in ast.walk(m):
+            if isinstance(n, ast.Attribute) and _is_self(n.value) and n.attr == attr and isinstance(n.ctx, (ast.Store, ast.Del)):
+                n_st += 1
+                if id(n) not in guarded:
+                    ok = False
+            if isinstance(n, ast.Call) and isinstance(n.func, ast.Attribute) and n.func.attr in MUTATORS and isinstance(n.func.value, ast.Attribute) \
+                    and _is_self(n.func.value.value) and n.func.value.attr == attr:
+                ok = False
+            if isinstance(n, ast.Subscript) and isinstance(n.ctx, (ast.Store, ast.Del)) and isinstance(n.value, ast.Attribute) and _is_self(n.value.value) \
+                    and n.value.attr == attr:
+                ok = False
+    return ok and n_st > 0
+
+
+def object_cfgs(repo):
+    """entry methods of further long-lived objects in the mini language of MustDef.v -> Gen/ObjectCfgs.v"""
+    problems, objs = [], []
+    for rel, cname, entry, ident in OBJECT_ENTRIES:
+        try:
+            tb = Table(repo, [rel])
+            ci = tb.by_name[cname][0]
+            trn = Translator(tb, ci)
+            cfg = simplify(trn.method_cfg(entry))
+            init = trn.init_fields()
+            written = set(ir_writes(cfg))
+            objs.append({"name": f"{rel[len('onnxscript/'):-3]}:{cname}.{entry}", "ident": ident, "config": sorted(init - written), "check": cfg,
+                         "rewrite": ("Skip",), "mutable": sorted(written), "reads": sorted(set(ir_reads(cfg))), "rel": rel, "cls": cname})
+        except (Problem, KeyError, IndexError) as e:
+            problems.append(f"{rel}: {cname}.{entry}: {e}")
+    fl = lambda fs: "[" + "; ".join('"' + f + '"' for f in fs) + "]"
+    out = ["(* generated by harness/c14_translate.py (object_cfgs): entry methods of long-lived objects other than rule classes -- do not edit *)",
+           "From Coq Require Import List String.", "Require Import OV.Determinism.MustDef.", "Import ListNotations.", "Local Open Scope string_scope.", ""]
+    for r in objs:
+        out.append(f"Definition {r['ident']} : rule :=\n  {{| r_name := \"{r['name']}\";\n     r_config := {fl(r['config'])};\n"
+                   f"     r_check :=\n      {to_coq(r['check'], 6)};\n     r_rewrite :=\n      {to_coq(r['rewrite'], 6)} |}}.\n")
+    out.append("Definition objects : list rule := [" + "; ".join(r["ident"] for r in objs) + "].\n")
+    return "\n".join(out), objs, problems
+
+
+def state_inventory(repo, rules, memos, objs, experiments=None):
+    """Every piece of mutable state that outlives one operation, with the class that makes it harmless (or the named experiments).
+    rules: output of rule_cfgs (incl. the pass entries); objs: output of object_cfgs; experiments: {site key: [op ids]}."""
+    experiments = experiments or {}
+    files = inventory_files(repo)
+    problems, sites = [], []
+    rn = [r for r in rules if ":" in r["name"] and "." not in r["name"].split(":")[1]]
+    _t, msites, mprobs = process_state(repo, rn, memos, files=files, strict=STATE_FILES)
+    problems += mprobs
+
+    def add(module, name, cls, why, kind):
+        key = f"{module}:{name}"
+        if cls == "SNone" and key in experiments:
+            cls = "SExperiment [" + "; ".join('"' + o + '"' for o in experiments[key]) + "]"
+        sites.append({"module": module, "name": name, "cls": cls, "why": why, "kind": kind})
+
+    fl = lambda fs: "[" + "; ".join('"' + f + '"' for f in fs if f) + "]"
+    all_trees = {rel: ast.parse(open(os.path.join(repo, rel)).read()) for rel in files}
+
+    def touched_by_name(name):
+        """is an object bound to the module-level name `name` mutated, rebound or used as a method receiver anywhere in the scanned modules"""
+        is_n = lambda e: (isinstance(e, ast.Name) and e.id == name) or (isinstance(e, ast.Attribute) and e.attr == name)
+        for rel_, t_ in all_trees.items():
+            for n in ast.walk(t_):
+                if isinstance(n, ast.Global) and name in n.names:
+                    return f"{rel_}:{n.lineno}"
+                if isinstance(n, (ast.Subscript, ast.Attribute)) and isinstance(n.ctx, (ast.Store, ast.Del)) and is_n(n.value):
+                    return f"{rel_}:{n.lineno}"
+                if isinstance(n, ast.AugAssign) and is_n(n.target):
+                    return f"{rel_}:{n.lineno}"
+                if isinstance(n, ast.Call) and isinstance(n.func, ast.Attribute) and is_n(n.func.value):
+                    return f"{rel_}:{n.lineno}"
+        return None
+
+    for s in msites:
+        d = s["disc"]
+        if d == "Uncontrolled" and s["why"].startswith("unknown constructor "):
+            callee = s["why"].split()[-1].split(".")[-1]
+            if callee[:1].islower() or callee[:1] == "_" and callee[1:2].islower():
+                where = touched_by_name(s["name"])
+                if where is None:
+                    add(s["module"], s["name"], "SImport", f"result of the function call {callee}(...) evaluated at import; the name is never rebound, the object never "
+                        "stored into and never used as a method receiver in the scanned modules", "module-level")
+                    continue
+        if d.startswith("KeyedBy:"):
+            _k, kp, fp = d.split(":")
+            c = f"SKeyed {fl(kp.split(','))} {fl(fp.split(','))}"
+        elif d.startswith("RuleObject:"):
+            c = f"(if rule_ok {d.split(':')[1]} then SMustDef else SNone)"
+        elif d == "RuleSet":
+            c = "(if forallb rule_ok RuleCfgs.ruleset_passes then SReset else SNone)"
+        elif d == "WriteOnceAtImport":
+            c = "SImport"
+        elif d in ("ResetPerOperation", "ScopedRestore"):
+            c = "SReset"
+        else:
+            c = "SNone"
+        add(s["module"], s["name"], c, s["why"], "module-level")
+    # ---- instance attributes written outside the constructors
+    trees = all_trees
+    ctor_sites = {}        # class name -> [(rel, lineno, at import?)]
+    register_calls = []    # (rel, lineno) of X.register(...) evaluated inside a function body
+    for rel, tree in trees.items():
+        visit_stmt = None
+
+        def visit(n, infn):
+            for c in ast.iter_child_nodes(n):
+                inner = infn or isinstance(c, (ast.FunctionDef, ast.AsyncFunctionDef, ast.Lambda))
+                if isinstance(c, (ast.FunctionDef, ast.AsyncFunctionDef)):
+                    for dflt in c.args.defaults + [d for d in c.args.kw_defaults if d is not None]:
+                        for x in ast.walk(dflt):
+                            if isinstance(x, ast.Call):
+                                ctor_sites.setdefault(ast.unparse(x.func).split(".")[-1], []).append((rel, x.lineno, True))
+                    for dec in c.decorator_list:       # decorators run where the def statement runs
+                        for x in ast.walk(dec):
+                            if isinstance(x, ast.Call):
+                                ctor_sites.setdefault(ast.unparse(x.func).split(".")[-1], []).append((rel, x.lineno, not infn))
+                            if isinstance(x, ast.Attribute) and x.attr == "register" and infn:
+                                register_calls.append((rel, x.lineno))
+                    for part in c.body:
+                        visit_stmt(part, True)
+                    continue
+                if isinstance(c, ast.Call):
+                    ctor_sites.setdefault(ast.unparse(c.func).split(".")[-1], []).append((rel, c.lineno, not infn))
+                    if isinstance(c.func, ast.Attribute) and c.func.attr == "register" and infn:
+                        register_calls.append((rel, c.lineno))
+                visit(c, inner)
+
+        def visit_stmt(st, infn):
+            visit(ast.Module(body=[st], type_ignores=[]), infn)      # a wrapper so that `st` itself is examined
+        visit(tree, False)
+    rule_by = {}
+    for r in rules:
+        if ":" in r["name"]:
+            mod, cn = r["name"].split(":")
+            rule_by[("onnxscript/rewriter/" + mod + ".py", cn)] = r
+            rule_by[("onnxscript/" + mod + ".py", cn)] = r
+    pass_by = {("onnxscript/optimizer/_constant_folding.py", "FoldConstantsPass"): ("pass_fold_constants", "forallb rule_ok RuleCfgs.passes"),
+               ("onnxscript/rewriter/_rewrite_rule.py", "RewriteRuleSet"): ("pass_rule_set", "forallb rule_ok RuleCfgs.ruleset_passes")}
+    obj_by = {(o["rel"], o["cls"]): o for o in objs}
+    covered = getattr(rule_cfgs, "abstract_covered_by", {})
+    all_classes = {}
+    for rel, tree in trees.items():
+        for cls in [n for n in ast.walk(tree) if isinstance(n, ast.ClassDef)]:
+            all_classes.setdefault(cls.name, []).append((rel, cls))
+    for rel, tree in trees.items():
+        for cls in [n for n in ast.walk(tree) if isinstance(n, ast.ClassDef)]:
+            later = _later_written(cls)
+            if not later:
+                continue
+            module = rel[len("onnxscript/"):-3]
+            at_import = [(r_, l_) for r_, l_, imp in ctor_sites.get(cls.name, []) if imp]
+            subclasses_at_import = []
+            for other, lst in all_classes.items():
+                for (_r2, c2) in lst:
+                    if any(ast.unparse(b).split(".")[-1] == cls.name for b in c2.bases):
+                        subclasses_at_import += [(r_, l_) for r_, l_, imp in ctor_sites.get(other, []) if imp]
+            for attr, meths in sorted(later.items()):
+                name = f"{cls.name}.{attr}"
+                how = sorted({h for hs in meths.values() for h in hs})
+                r = rule_by.get((rel, cls.name))
+                if r is not None:
+                    if attr in r.get("caches", []):
+                        add(module, name, 'SKeyed ["objects of the model"] ["objects of the model"]',
+                            "per-graph cache keyed by objects of the model being rewritten (freshness assumption of the must-definition analysis)", "rule field")
+                    elif attr in r["mutable"] or attr in r["reads"] or attr in r["config"]:
+                        add(module, name, f"(if rule_ok {r['ident']} then SMustDef else SNone)", "per-match field of a rule class: must-definition check", "rule field")
+                    else:
+                        add(module, name, "SNone", f"field of rule class {cls.name} written in {sorted(meths)} outside check/rewrite", "rule field")
+                    continue
+                cov = covered.get(f"{rel}:{cls.name}")
+                if cov:
+                    ids = [rr["ident"] for rr in rules if ":" in rr["name"] and rr["name"].split(":")[1] in cov and rr["name"].split(":")[0] == module[len("rewriter/"):]]
+                    if ids:
+                        add(module, name, f"(if forallb rule_ok [{'; '.join(ids)}] then SMustDef else SNone)",
+                            f"field of an abstract rule base: must-definition check of its concrete subclasses {cov}", "rule field")
+                        continue
+                if (rel, cls.name) in pass_by:
+                    ident, cond = pass_by[(rel, cls.name)]
+                    pr = [rr for rr in rules if rr.get("ident") == ident] or ([rule_cfgs.set_rule] if getattr(rule_cfgs, "set_rule", None) and ident == "pass_rule_set" else [])
+                    if pr and (attr in pr[0]["mutable"] or attr in pr[0]["reads"]):
+                        add(module, name, f"(if {cond} then SReset else SNone)", f"field of {cls.name}: re-initialised by its entry method (must-definition check)", "pass field")
+                    else:
+                        add(module, name, "SNone", f"field of {cls.name} written in {sorted(meths)}, not reached from the translated entry method", "pass field")
+                    continue
+                if (rel, cls.name) in obj_by:
+                    o = obj_by[(rel, cls.name)]
+                    scoped = not at_import and not subclasses_at_import and cls.name not in LONG_LIVED
+                    fallback = "SReset" if scoped else "SNone"
+                    if attr in o["mutable"] or attr in o["reads"]:
+                        add(module, name, f"(if rule_ok {o['ident']} then SReset else {fallback})",
+                            f"field of {cls.name}: written before read by its entry method (must-definition check)"
+                            + ("; else: no instance is created at import, every instance belongs to one operation" if scoped else ""), "object field")
+                        continue
+                if _lazy_memo(cls, attr):
+                    add(module, name, 'SKeyed ["self"] ["self"]', "lazily computed once from the object's configuration (`if self.x is None: self.x = ...`)", "lazy field")
+                    continue
+                if set(meths) == {"register"}:
+                    if not register_calls:
+                        add(module, name, "SImport", "filled by register(...) decorators / calls evaluated while modules are imported; no register call inside a function", "registry")
+                    else:
+                        add(module, name, "SNone", f"registry written by register(...) inside functions: {register_calls[:3]}", "registry")
+                    continue
+                if cls.name not in LONG_LIVED and not at_import and not subclasses_at_import:
+                    add(module, name, "SReset", f"no instance of {cls.name} (or of a subclass) is created while a module is imported: every instance is created by, and "
+                        f"belongs to, one operation (stores: {how} in {sorted(meths)})", "operation-scoped object")
+                    continue
+                add(module, name, "SNone", f"attribute of long-lived class {cls.name} written outside the constructor ({how} in {sorted(meths)})"
+                    + (f"; instances created at import: {at_import[:2]}" if at_import else ""), "long-lived object")
+    out = ["(* generated by harness/c14_translate.py (state_inventory) over " + str(len(files)) + " modules of onnxscript -- do not edit *)",
+           "From Coq Require Import List String.",
+           "Require Import OV.Determinism.MustDef OV.Determinism.StateClasses OV.Gen.RuleCfgs OV.Gen.ObjectCfgs.",
+           "Import ListNotations.", "Local Open Scope string_scope.", "", "Definition inventory : list inv_site := ["]
+    out.append(";\n".join(f'  {{| iv_module := "{s["module"]}"; iv_name := "{s["name"]}"; iv_class := {s["cls"]} |}}' for s in sites))
+    out.append("].")
+    return "\n".join(out) + "\n", sites, problems, files
